@@ -1,3 +1,5 @@
+//go:build !no_walk
+
 package main
 
 import (
